@@ -191,7 +191,17 @@ def q_bracket(x, w, q):
     Fm = np.array([np.sum(w[x < v]) for v in vals]) / W
     lo = vals[Fp < q - 1e-12]
     hi = vals[Fm <= q + 1e-12]
-    return (float(lo.max()) if lo.size else float(vals.min())), float(hi.max())
+    lo_v, hi_v = (float(lo.max()) if lo.size else float(vals.min())), float(hi.max())
+    # inside a group of tied samples the documented rule (linear interpolation of the cumulative weights over the sorted
+    # samples) leaves only the ORDER of the tied samples open: the cumulative weight reaches the group's value v after the
+    # first tied sample, whose weight is at most the largest weight in the group -- so the quantile is at least
+    # u + (v - u) * (q - F(<v)) / wmax(v), and exactly v beyond that
+    k = int(np.searchsorted(vals, hi_v))
+    if lo.size and k < len(vals) and vals[k] == hi_v and Fm[k] < q - 1e-12 and Fp[k] > q + 1e-12 and k >= 1 and vals[k - 1] == lo_v:
+        wmax = float(np.max(w[x == hi_v])) / W
+        if wmax > 0:
+            lo_v = lo_v + (hi_v - lo_v) * min(1.0, (q - Fm[k]) / wmax) * (1.0 - 1e-12)
+    return lo_v, hi_v
 
 
 def judge_quantiles(ctx, x, w, got, what, base):
